@@ -25,7 +25,7 @@ ASSUMPTIONS = ["trailing whitespace of a displayed line is not compared (it is i
                "non-blank characters of the line are compared (wrapping re-flows whitespace)",
                "blank lines at the very end are not compared (the statement excludes them)",
                "Pygments lexers return the characters they are given (trusted third-party component)"]
-REQUIRED = ["mon.from_path", "mon.syntax_lines", "mon.syntax_numbers", "mon.syntax_range", "mon.traceback_frames"]
+REQUIRED = ["mon.syntax_object_rendered_again", "mon.from_path", "mon.syntax_lines", "mon.syntax_numbers", "mon.syntax_range", "mon.traceback_frames"]
 MIN_NONTRIVIAL = {"quick": 1500, "thorough": 80000}
 
 PY_LINES = ["import os", "def f(x):", "    return x + 1", "class A:", "    pass", "x = [1, 2, 3]", "# comment 漢字",
@@ -175,6 +175,24 @@ def wl_syntax(ctx, rng, case_no):
                 os.unlink(path)
         else:
             syn = Syntax(code, lexer, **opts)
+        # one object is often drawn many times (a live display re-renders it on every refresh, a table holding it is
+        # printed twice, it is measured before it is drawn): for a third of the cases the render that is judged is not
+        # the first thing that happens to the object
+        import random as _random
+        r2 = _random.Random("again/%d/%s" % (case_no, code[:20]))
+        prior = r2.choice([0, 0, 0, 0, 1, 1, 2, 3])
+        for k in range(prior):
+            if r2.random() < 0.3:
+                from rich.measure import Measurement
+                Measurement.get(console, syn, width)
+            else:
+                other = console if r2.random() < 0.5 else consoles.layout_console(r2.choice([30, 60, 80, 200]))
+                render_plain(other, syn)
+        if prior:
+            feats.append("object-used-before")
+            ftag = "+".join(feats)
+            ctx.count("mon.syntax_object_rendered_again")
+            wit["uses_before_this_render"] = prior
         shown = render_plain(console, syn)
     except Exception as e:
         from rv.core.runner import exc_mechanism
